@@ -204,6 +204,8 @@ def run_shard(params, which=None):
         sh.count('conflicts_raised', out['conflicts'])
         sh.count('commits_failed_after_the_storage_voted', out.get('vote_failures', 0))
         sh.count('undo_commits_in_worlds', out.get('undos', 0))
+        if out.get('stalled_clock'):
+            sh.count('worlds_under_a_stalled_clock')
         for p in out['pack']:
             sh.note('pack_outcomes', p)
         for f in out['sched']:
